@@ -402,3 +402,37 @@ impl Inputs for crate::types::CowF {
         (2..=4).contains(&self.len()) || self.is_empty() || self.iter().any(|x| x.is_nan())
     }
 }
+
+impl Inputs for Vec<u8> {
+    fn systematic(_m: &Model<Self>, tier: Tier) -> Vec<Self> {
+        let alpha = [0u8, 1, 7, 50, 101, 127, 128, 255];
+        let maxl = if tier == Tier::Thorough { 5 } else { 4 };
+        let mut out: Vec<Vec<u8>> = vec![vec![]];
+        let mut frontier: Vec<Vec<u8>> = vec![vec![]];
+        for _ in 0..maxl {
+            let mut next = vec![];
+            for s in &frontier {
+                for a in alpha {
+                    let mut t = s.clone();
+                    t.push(a);
+                    next.push(t);
+                }
+            }
+            out.extend(next.iter().cloned());
+            frontier = next;
+        }
+        for n in [15usize, 16, 17, 31, 32, 33, 255, 256, 257, 1000] {
+            out.push((0..n).map(|i| (i * 7 + 3) as u8).rev().collect());
+            out.push(vec![200; n]);
+        }
+        out.push(b"hello".to_vec());
+        out.push("ß😀".as_bytes().to_vec());
+        out
+    }
+    fn strategy(_m: &Model<Self>) -> BoxedStrategy<Self> {
+        prop_oneof![8 => proptest::collection::vec(any::<u8>(), 0..8), 8 => proptest::collection::vec(0u8..60, 0..8), 1 => proptest::collection::vec(any::<u8>(), 8..300)].boxed()
+    }
+    fn near_bound(&self, _m: &Model<Self>) -> bool {
+        (2..=4).contains(&self.len()) || self.is_empty()
+    }
+}
